@@ -378,26 +378,45 @@ def run(ctx):
 
 
 def realtime_crosscheck(ctx):
-    """three short timelines in real time: the virtual-clock verdicts carry over"""
+    """three short timelines in real time: the virtual-clock verdicts carry over.  Gaps are *measured*; a verdict is only
+    drawn when the measured gap is clearly on one side of the timeout (< 0.6 T: alive, > 1.5 T: gone), so a stalled
+    machine can make this cross-check say nothing but never raise a false alarm."""
     import time
+    T = 1.0
     app, client = srv.make_server(srv.make_factory(0.0, 5.0, 1.0))
-    a = srv.start_instance(client, timeout={"milliseconds": 300})
-    b = srv.start_instance(client, timeout={"seconds": 30})
-    time.sleep(0.1)
+    a = srv.start_instance(client, timeout={"milliseconds": int(T * 1000)})
+    b = srv.start_instance(client, timeout={"seconds": 60})
+    last = time.monotonic()
+    judged = 0
+    time.sleep(0.3)
     r = client.post("/%s/keep-alive" % a)
-    if r.status_code != 200:
-        ctx.violation("C17/realtime/alive-refused", {"realtime": 1}, "keep-alive at 0.1 s of 0.3 s -> %d" % r.status_code)
-    time.sleep(0.2)
-    r = client.post("/%s/keep-alive" % a)      # 0.2 s after the last access: still alive
-    if r.status_code != 200:
-        ctx.violation("C17/realtime/timer-not-restarted", {"realtime": 2}, "keep-alive 0.2 s after the previous one -> %d" % r.status_code)
-    time.sleep(0.45)
-    n = srv.body(client.get("/full-metrics")).get("instanceCount")
-    if n != 1:
-        ctx.violation("C17/realtime/immortal", {"realtime": 3}, "0.45 s after the last access of a 0.3 s instance full-metrics reports %r instances" % n)
-    r = client.post("/%s/keep-alive" % a)
+    gap = time.monotonic() - last
+    if gap < 0.6 * T:
+        judged += 1
+        if r.status_code != 200:
+            ctx.violation("C17/realtime/alive-refused", {"realtime": 1}, "keep-alive %.2f s after creation of a %.1f s instance -> %d" % (gap, T, r.status_code))
     if r.status_code == 200:
-        ctx.violation("C17/realtime/gone-served", {"realtime": 4}, "swept instance served")
+        last = time.monotonic()
+    time.sleep(0.4)
+    r = client.post("/%s/keep-alive" % a)      # well within T of the previous access, although more than T/2 after creation
+    gap = time.monotonic() - last
+    if gap < 0.6 * T:
+        judged += 1
+        if r.status_code != 200:
+            ctx.violation("C17/realtime/timer-not-restarted", {"realtime": 2}, "keep-alive %.2f s after the previous access -> %d" % (gap, r.status_code))
+    if r.status_code == 200:
+        last = time.monotonic()
+    time.sleep(1.6 * T)
+    gap = time.monotonic() - last
+    n = srv.body(client.get("/full-metrics")).get("instanceCount")
+    if gap > 1.5 * T:
+        judged += 1
+        if n != 1:
+            ctx.violation("C17/realtime/immortal", {"realtime": 3}, "%.2f s after the last access of a %.1f s instance full-metrics reports %r instances" % (gap, T, n))
+        r = client.post("/%s/keep-alive" % a)
+        if r.status_code == 200:
+            ctx.violation("C17/realtime/gone-served", {"realtime": 4}, "swept instance served")
+    ctx.note("real-time cross-check: %d of 3 verdicts drawn" % judged)
 
 
 def replay(case):
